@@ -54,10 +54,6 @@ Definition kf_exposes_empty (u : uri) : bool :=
   relative_ref u && match pathSegs (normalize 63 u) with [] :: _ :: _ => true | _ => false end.
 Definition kf_exposes_colon (u : uri) : bool :=
   relative_ref u && match pathSegs (normalize 63 u) with s :: _ => has_colon s | [] => false end.
-(* D14: the normal form of a host-less absolute path begins with two empty segments... *)
-Definition kf_abs_dslash (u : uri) : bool :=
-  negb (is_host_set u) && absolutePath u
-  && match pathSegs (normalize 63 u) with [] :: _ :: _ => true | _ => false end.
 
 (* the kind of the recomposed path *)
 Inductive pkind := PEmpty | PAbsolute | PRelative.
@@ -219,6 +215,43 @@ Proof.
   destruct s as [|[|c x] [|y r]]; reflexivity.
 Qed.
 
+(* the "." that uriFixAmbiguity puts in front of a dot-free list is taken out again by the next walk *)
+Lemma rds_p_guarded h a X : forallb nodot X = true -> X <> [] -> rds_p h a (@cons text [46] X) = X.
+Proof.
+  intros HX Hne. unfold rds_p. rewrite walk_false_cons. change (seg_dot [46]) with true. cbv iota.
+  destruct X as [|x r]; [congruence|]. apply rds_walk_fixed. exact HX.
+Qed.
+
+Lemma fixamb_cases h a X : fixamb_p h a X = X \/ (fixamb_p h a X = [46] :: X /\ exists y r, X = [] :: y :: r).
+Proof.
+  unfold fixamb_p. destruct a, X as [|[|c x] [|[|d y] r]]; auto; try (right; split; [reflexivity|eauto]).
+  destruct h; [left; reflexivity|right; split; [reflexivity|eauto]].
+Qed.
+
+(* normalizing a dot-free list up to the guard, walking it again and guarding it again changes nothing *)
+Lemma guard_round h a X : forallb nodot X = true ->
+  fixtrail_p h (fixamb_p h a (rds_p h a (fixtrail_p h (fixamb_p h a X)))) = fixtrail_p h (fixamb_p h a X).
+Proof.
+  intros HX. destruct (fixamb_cases h a X) as [E|(E & y & r & EX)].
+  - rewrite E. rewrite rds_p_fixed by (apply fixtrail_nodots; exact HX). rewrite fixtrail_fixamb_fixtrail, E. reflexivity.
+  - rewrite E. subst X.
+    assert (forall Z : list text, fixtrail_p h (@cons text [46] ([] :: y :: Z)) = [46] :: [] :: y :: Z) as Ef
+      by (intros Z; unfold fixtrail_p; destruct (negb h); reflexivity).
+    rewrite Ef. rewrite rds_p_guarded by (exact HX || discriminate). rewrite E. apply Ef.
+Qed.
+
+(* ... and without the second guard (a reference with an authority): the walk's own output *)
+Lemma guard_round_relhost h a X : forallb nodot X = true ->
+  fixtrail_p h (rds_p h a (fixtrail_p h (fixamb_p h a X))) = fixtrail_p h X.
+Proof.
+  intros HX. destruct (fixamb_cases h a X) as [E|(E & y & r & EX)].
+  - rewrite E. rewrite rds_p_fixed by (apply fixtrail_nodots; exact HX). apply fixtrail_idem.
+  - rewrite E. subst X.
+    assert (forall Z : list text, fixtrail_p h (@cons text [46] ([] :: y :: Z)) = [46] :: [] :: y :: Z) as Ef
+      by (intros Z; unfold fixtrail_p; destruct (negb h); reflexivity).
+    rewrite Ef. rewrite rds_p_guarded by (exact HX || discriminate). reflexivity.
+Qed.
+
 (* the host / absolute-path flags only decide between "no segment" and "one empty segment" *)
 Definition triv (l : list text) : Prop := l = [] \/ l = [[]].
 
@@ -373,11 +406,12 @@ Proof.
   cbn [map]. constructor; [apply srel_fix; assumption|apply IH; assumption].
 Qed.
 
-Lemma nso_abs h a S : norm_segs_of false h a S = fixtrail_p h (rds_p h a (map fix_pct S)).
+Lemma nso_abs h a S : norm_segs_of false h a S = fixtrail_p h (fixamb_p h a (rds_p h a (map fix_pct S))).
 Proof. reflexivity. Qed.
 
 Lemma nso_rel S : norm_segs_of true false false S
-  = fixtrail_p false (match map fix_pct S with [] => [] | _ => rds_walk true false false [] (map fix_pct S) end).
+  = fixtrail_p false (fixamb_p false false
+      (match map fix_pct S with [] => [] | _ => rds_walk true false false [] (map fix_pct S) end)).
 Proof. reflexivity. Qed.
 
 Lemma nso_ext rel h a S1 S2 : map fix_pct S1 = map fix_pct S2 -> norm_segs_of rel h a S1 = norm_segs_of rel h a S2.
@@ -401,8 +435,7 @@ Section Branches.
   Proof.
     pose proof (srel_fix_list S Hwf Hnpd) as Hrel.
     rewrite nso_abs.
-    rewrite rds_p_fixed by (apply fixtrail_nodots; apply rds_p_nodots).
-    rewrite fixtrail_fixamb_fixtrail.
+    rewrite guard_round by apply rds_p_nodots.
     apply srel_map. apply fixtrail_sim. apply fixamb_sim. apply rds_p_sim. exact Hrel.
   Qed.
 
@@ -413,8 +446,7 @@ Section Branches.
   Proof.
     pose proof (srel_fix_list S Hwf Hnpd) as Hrel.
     rewrite nso_abs.
-    rewrite rds_p_fixed by (apply fixtrail_nodots; apply rds_p_nodots).
-    rewrite fixtrail_idem.
+    rewrite guard_round_relhost by apply rds_p_nodots.
     apply srel_map. apply fixtrail_sim. apply rds_p_sim. exact Hrel.
   Qed.
 
@@ -440,8 +472,8 @@ Section Branches.
       assert (forallb nodot X = true) as HX by apply rds_walk_nodots.
       destruct (walk_flags false true true false (s0 :: r0) []) as [E|[[E1|E1] [E2|E2]]]; fold X Y in E || fold X Y in E1, E2.
       + rewrite <- E in *. unfold fixtrail_p. cbn [negb].
-        destruct X as [|[|c x] [|y r]]; try congruence; try reflexivity;
-          (rewrite rds_p_fixed by exact HX; reflexivity).
+        destruct X as [|[|c x] [|y r]]; try congruence; try reflexivity; cbn [fixamb_p];
+          (first [rewrite rds_p_guarded by (exact HX || discriminate)|rewrite rds_p_fixed by exact HX]; reflexivity).
       + congruence.
       + rewrite E1, E2. reflexivity.
       + congruence.
@@ -469,12 +501,17 @@ Section Branches.
     { split; intros E; rewrite E in HN; apply HN; reflexivity. }
     assert (forall Z, Z <> [[]] -> fixtrail_p false Z = Z) as EX.
     { intros Z HZ. unfold fixtrail_p. cbn [negb]. destruct Z as [|[|c x] [|y r]]; try reflexivity. congruence. }
-    rewrite (EX X HX2).
     assert (forall Z, Z <> [] -> rds_p hb ab (P ++ Z) = rds_walk false hb ab (absorb [] P) Z) as Hp.
     { intros Z HZ. unfold rds_p. destruct (P ++ Z) eqn:E.
       - apply app_eq_nil in E. destruct E; congruence.
       - rewrite <- E. apply walk_app. exact HZ. }
-    rewrite (Hp X HX1), (Hp (s0 :: r0)) by discriminate.
+    (* a guard segment in front of the cleaned reference is skipped by the walk over the merged path *)
+    assert (rds_p hb ab (P ++ fixtrail_p false (fixamb_p false false X)) = rds_walk false hb ab (absorb [] P) X) as EG.
+    { destruct (fixamb_cases false false X) as [E|(E & y & r & EX')].
+      - rewrite E, (EX X HX2). apply Hp. exact HX1.
+      - rewrite E. rewrite EX by discriminate. rewrite Hp by discriminate.
+        rewrite walk_false_cons. change (seg_dot [46]) with true. cbv iota. rewrite EX'. reflexivity. }
+    rewrite EG, (Hp (s0 :: r0)) by discriminate.
     exact (rel_then_abs hb ab Hha (s0 :: r0) [] (absorb [] P) He HX1 HX2).
   Qed.
 End Branches.
@@ -890,12 +927,16 @@ Proof.
     apply IH; assumption.
 Qed.
 
-Lemma nso_forallb (P : text -> bool) rel h a S : P [] = true ->
+Lemma nso_forallb (P : text -> bool) rel h a S : P [] = true -> P [46] = true ->
   forallb P (map fix_pct S) = true -> forallb P (norm_segs_of rel h a S) = true.
 Proof.
-  intros HP HS. unfold norm_segs_of. cbv zeta.
-  assert (forallb P (match map fix_pct S with [] => [] | _ => rds_walk rel h a [] (map fix_pct S) end) = true) as Ho.
+  intros HP HPd HS. unfold norm_segs_of. cbv zeta.
+  assert (forallb P (match map fix_pct S with [] => [] | _ => rds_walk rel h a [] (map fix_pct S) end) = true) as Ho0.
   { destruct (map fix_pct S) as [|s0 r0] eqn:E; [reflexivity|]. apply walk_forallb_any; [exact HP|reflexivity|exact HS]. }
+  assert (forall X, forallb P X = true -> forallb P (guard_segs h a X) = true) as Hg.
+  { intros X HX. change (guard_segs h a X) with (fixamb_p h a X).
+    destruct (fixamb_cases h a X) as [E|(E & _)]; rewrite E; [exact HX|]. cbn [forallb]. rewrite HPd, HX. reflexivity. }
+  pose proof (Hg _ Ho0) as Ho.
   destruct (negb h); [|exact Ho].
   match goal with |- forallb P (match ?o with _ => _ end) = true => destruct o as [|[|? ?] [|? ?]] end;
     try exact Ho. reflexivity.
@@ -903,7 +944,7 @@ Qed.
 
 Lemma nso_head_ok rel h a S : forallb noslash S = true -> forallb head_ok (norm_segs_of rel h a S) = true.
 Proof.
-  intros H. apply nso_forallb; [reflexivity|].
+  intros H. apply nso_forallb; [reflexivity|reflexivity|].
   rewrite forallb_forall in *. intros x Hx. apply in_map_iff in Hx. destruct Hx as (s & Es & Hs). subst x.
   apply head_ok_fix. apply noslash_head_ok. apply H. exact Hs.
 Qed.
@@ -912,18 +953,26 @@ Lemma path_text_hostless u : is_host_set u = false ->
   path_text u = (if absolutePath u then [47] else []) ++ join_text (pathSegs u).
 Proof. intros Hh. unfold path_text, path_text_of. rewrite Hh, andb_false_r, orb_false_r. reflexivity. Qed.
 
-(* For a reference with neither scheme nor authority, outside the four shapes: the recomposed path of the
+(* the normal form of a host-less absolute path never begins with an empty segment followed by another one:
+   uriFixAmbiguity has put a "." in front (the repair of D14) *)
+Lemma nso_abs_no_dslash rel S y r : norm_segs_of rel false true S <> [] :: y :: r.
+Proof.
+  unfold norm_segs_of. cbv zeta. cbn [negb].
+  match goal with |- context [guard_segs false true ?X] => destruct X as [|[|c x] [|z l]] end; discriminate.
+Qed.
+
+(* For a reference with neither scheme nor authority, outside the three shapes: the recomposed path of the
    normal form is empty / absolute / relative as that of the reference, and the recomposed text reads back
    with neither a scheme nor an authority. *)
 Theorem kind_kept R :
   scheme R = None -> is_host_set R = false -> wf R = true ->
-  kf_cancels R = false -> kf_exposes_empty R = false -> kf_exposes_colon R = false -> kf_abs_dslash R = false ->
+  kf_cancels R = false -> kf_exposes_empty R = false -> kf_exposes_colon R = false ->
   path_kind (normalize 63 R) = path_kind R
   /\ reads_scheme (normalize 63 R) = false /\ reads_authority (normalize 63 R) = false.
 Proof.
-  intros Hs Hh Hwf Hkc Hke Hkco Hka.
+  intros Hs Hh Hwf Hkc Hke Hkco.
   destruct (normalized_fields R) as (Esc & _ & _ & _ & _ & _ & _ & Eps & Eab & _ & _ & Ehs). cbv zeta in *.
-  unfold kf_cancels, kf_exposes_empty, kf_exposes_colon, kf_abs_dslash in *.
+  unfold kf_cancels, kf_exposes_empty, kf_exposes_colon in *.
   set (NR := normalize 63 R) in *.
   rewrite Hs in Esc. cbn [omap] in Esc. rewrite Hh in Ehs.
   pose proof (wf_noslash R Hwf) as Hno.
@@ -938,7 +987,9 @@ Proof.
     rewrite Hrel in *.
     pose proof (nso_head_ok false false true (pathSegs R) Hno) as Hok.
     pose proof (norm_segs_of_not_lone false true (pathSegs R)) as Hlone.
+    pose proof (nso_abs_no_dslash false (pathSegs R)) as Hnd.
     destruct (norm_segs_of false false true (pathSegs R)) as [|[|c s] [|y r]]; try reflexivity; try congruence.
+    + exfalso. exact (Hnd y r eq_refl).
     + cbn [forallb head_ok] in Hok. apply andb_prop in Hok. destruct Hok as [Hc _].
       unfold join_text. cbn [path_pieces concat app starts_with]. apply negb_true_iff in Hc.
       rewrite N.eqb_sym, Hc. reflexivity.
@@ -969,7 +1020,7 @@ Proof.
       split; [reflexivity|split; [exact Hkco|reflexivity]].
 Qed.
 
-(* a witness for each of the four shapes *)
+(* a witness for each of the three shapes *)
 Lemma kind_cancels_refuted :          (* D7a  "a/.." -> "" *)
   exists R, parsed "a/.." R /\ wf R = true /\ kf_cancels R = true
     /\ path_kind R = PRelative /\ path_kind (normalize 63 R) = PEmpty.
@@ -987,10 +1038,14 @@ Lemma kind_exposes_colon_refuted :    (* D7b  "a/../b:c" -> "b:c", read back as 
     /\ parse (to_text (normalize 63 R)) = POk v /\ scheme R = None /\ scheme v = Some (txt "b").
 Proof. do 2 eexists. split; [vm_compute; reflexivity|]. repeat split. Qed.
 
-Lemma kind_abs_dslash_refuted :       (* D14  "/..//." -> "//", read back as an empty authority *)
-  exists R v, parsed "/..//." R /\ wf R = true /\ kf_abs_dslash R = true
-    /\ reads_authority R = false /\ reads_authority (normalize 63 R) = true
-    /\ parse (to_text (normalize 63 R)) = POk v /\ is_host_set R = false /\ is_host_set v = true.
+(* was D14: "/..//." gave "//", read back as an empty authority; repaired: "/.//", read back as it is *)
+Lemma kind_abs_dslash_guarded :
+  exists R v, parsed "/..//." R /\ wf R = true
+    /\ kf_cancels R = false /\ kf_exposes_empty R = false /\ kf_exposes_colon R = false
+    /\ to_text (normalize 63 R) = txt "/.//"
+    /\ reads_authority R = false /\ reads_authority (normalize 63 R) = false
+    /\ parse (to_text (normalize 63 R)) = POk v /\ is_host_set v = false
+    /\ pathSegs v = pathSegs (normalize 63 R) /\ absolutePath v = true.
 Proof. do 2 eexists. split; [vm_compute; reflexivity|]. repeat split. Qed.
 
 (* ================================================================ 9. the two carve-outs are exact on a small scope *)
